@@ -514,7 +514,76 @@ def r165(facts, res):
         res.bad(R, 'gc-before-graph', loc_of(b, nb), 'StateGraph::new can be reached without garbage-collecting unreachable states')
 
 
+def r166(facts, res):
+    """"Every state is reachable from the start state": the set of states gc() keeps is built as a reachability closure - a state
+    enters the keep-set only when it was TAKEN from a work list, and the work list only ever receives the start state and the
+    edge targets of a state that was itself taken from it.  Keeping "everything some edge points to" also keeps states that
+    only dead states point to."""
+    R = 'R16.6'
+    bs = [x for x in facts.lib_bodies(['lrtable']) if strip_generics(x.path) == 'lrtable::pager::gc']
+    if len(bs) != 1:
+        res.lost(R, 'lrtable::pager::gc not found')
+        return
+    b = bs[0]
+    sets = [l for l, ty in enumerate(b.locals) if ty['ty'].startswith('std::collections::hash::set::HashSet<lrtable::StIdx<usize>') and b.name_of(l)]
+    cont = [bb for bb, t in b.calls_named('contains') if t['args'] and b.op_root(t['args'][0])[0] in sets]
+    loops = b.loops()
+    # the keep-set is the one consulted by the compaction loops (R2.6); the work list is the other one
+    keep = None
+    for bb, t in b.calls_named('contains'):
+        r = b.op_root(t['args'][0])[0] if t['args'] else None
+        if r in sets and any(b.calls_named('push', loops[h]) for h in loops if bb in loops[h]):
+            keep = r
+    if keep is None:
+        res.lost(R, 'cannot identify the keep-set of gc')
+        return
+    work = [l for l in sets if l != keep]
+    THR = Body.THROUGH + ('unwrap', 'next', 'expect', 'copied', 'cloned')
+    def from_worklist(op):
+        r, projs, via = b.op_root(op, through=THR, stop_named=False)
+        return r in work and 'next' in via
+    bad = []
+    nadd = 0
+    for bb, t in b.calls():
+        nm = cname(t)
+        if nm not in ('insert', 'extend') or not t['args']:
+            continue
+        tgt = b.op_root(t['args'][0])[0]
+        if tgt == keep:
+            nadd += 1
+            if nm == 'insert' and from_worklist(t['args'][1]):
+                continue
+            bad.append('line %s: a state is put into the keep-set by `%s` without having been taken from the work list: everything that some edge points to is kept, '
+                       'including states only dead states point to' % (t.get('line'), nm))
+        elif tgt in work:
+            nadd += 1
+            if nm == 'insert':
+                r, projs, via = b.op_root(t['args'][1], through=THR, stop_named=False)
+                if 1 <= r <= b.arg_count and 'StIdx' in b.lty(r):
+                    continue        # the start state
+                bad.append('line %s: something other than the start state is inserted into the work list' % t.get('line'))
+            else:
+                # extend(values(edges[X]) [filtered]) with X taken from the work list
+                r, projs, via = b.op_root(t['args'][1], through=THR + ('values', 'filter', 'index', 'iter', 'into_iter', 'map'), stop_named=False)
+                ix = [(b2, t2) for b2, t2 in b.calls_named('index') if b.dominates(b2, bb) and len(t2['args']) == 2]
+                okx = any(from_worklist(t2['args'][1]) or from_worklist_via_from(b, t2['args'][1], work, THR) for b2, t2 in ix)
+                if not ('values' in via and okx):
+                    bad.append('line %s: the work list is extended with something other than the edge targets of the state just taken from it' % t.get('line'))
+    if not work:
+        bad.append('gc has no work list: the keep-set is not built by traversal from the start state')
+    if bad:
+        res.bad(R, 'keep-set-is-reachability', loc_of(b), '; '.join(sorted(set(bad))[:2]))
+    else:
+        res.ok(R, 'keep-set-is-reachability', loc_of(b), 'states enter the keep-set only from the work list; the work list receives the start state and the edge targets of taken states (%d additions)' % nadd)
+
+
+def from_worklist_via_from(b, op, work, THR):
+    r, projs, via = b.op_root(op, through=THR + ('from', 'into'), stop_named=False)
+    return r in work and 'next' in via
+
+
 def run(facts, res):
+    r166(facts, res)
     ctx = r161(facts, res)
     if ctx:
         r162(facts, res, ctx)
